@@ -47,6 +47,8 @@ pub const OPS: &[OpSpec] = &[
     OpSpec { name: "h", nslots: 0, kids: &[0, 1], payload: false },
     // LA: (sumr r [x] b) = r * sum_x b
     OpSpec { name: "sumr", nslots: 0, kids: &[0, 1], payload: false },
+    // LS: like g, but the child comes before the slot in the e-node
+    OpSpec { name: "gr", nslots: 1, kids: &[0], payload: false },
 ];
 
 pub fn op_index(name: &str) -> Option<u8> {
